@@ -20,6 +20,7 @@ ONE = ('one_counter_per_lookup_under_interference', ['C15'],
 
 UNIT = dict(
     name='interference',
+    auto_helpers=True,
     prelude=['prelude.rs', 'prelude_float.rs'],
     items=COMMON + UTILS_STUBS + SCORE_STUBS + [AC.SPEC_MIN,
         dict(kind='struct', file=G, name='GlobalCache', rules=R1_TYPES),
